@@ -111,6 +111,11 @@ func main() {
 		behaviour{name: "flush-then-write(x)+return(0,nil)", script: "flush;write:x;ret:0", wrote: true, status: 200, body: "x"},
 		behaviour{name: "flush-then-write(5k)+return(0,err)", script: "flush;write:5000xt;ret:0:boom", wrote: true, status: 200, body: big, retErr: true})
 	// (a handler that flushes and then returns an error status breaks the handler contract itself: not in the alphabet)
+	// an informational header (Early Hints) before the final status; a Content-Length set by a handler that then gives up
+	behaviours = append(behaviours,
+		behaviour{name: "early-hints-then-write(404,nf)", script: "status:103;status:404;write:nf;ret:0", wrote: true, status: 404, body: "nf"},
+		behaviour{name: "content-length-set-then-return(404,nil)", script: "hdr:Content-Length=5;ret:404", status: 404},
+		behaviour{name: "content-length-set-then-return(500,err)", script: "hdr:Content-Length=5;ret:500:boom", status: 500, retErr: true})
 	// a response that asks `internal` for a redirect to a path that answers in the same way, for ever (with a Content-Length
 	// on every discarded answer); without `internal` on the site it is an ordinary response
 	accel := behaviour{name: "internal-redirect-loop(Content-Length set)", script: "hdr:X-Accel-Redirect=/x;hdr:Content-Length=5;status:200;write:hello;ret:0", wrote: true, status: 200, body: "hello"}
